@@ -33,7 +33,10 @@ N = {"quick": (8, 40), "thorough": (16, 1200)}
 
 def plan(tier, seed):
     ns, per = N[tier]
-    return [{"n": per} for _ in range(ns)]
+    shards = [{"n": per} for _ in range(ns)]
+    if tier == "thorough":
+        shards.append({"repo_tests": True, "n": 0, "allk": False})
+    return shards
 
 
 def make_case(rng):
@@ -115,6 +118,11 @@ def judge(ctx, c):
 
 
 def run_shard(ctx, shard):
+    if shard.get("repo_tests"):
+        from ..core import run_repo_tests_under_contracts
+        ms.install(ctx)
+        run_repo_tests_under_contracts(ctx)
+        return
     rng = ctx.rng()
     for i in range(shard["n"]):
         judge(ctx, make_case(rng))
